@@ -17,6 +17,16 @@ RULES = {
     'C06.V': 'on every successful path the buffer is used only as len(), as '
              'a slice ending at or before the consumed count, or as an index '
              'below it: no byte after the frame can influence the result',
+    'C06.P': 'the payload is taken as sent: no view of the buffer on a '
+             'successful path goes through a content-dependent bytes method '
+             '(strip, split, replace, find ...)',
+}
+CONTENT_METHODS = {
+    'strip', 'rstrip', 'lstrip', 'split', 'rsplit', 'splitlines',
+    'partition', 'rpartition', 'replace', 'translate', 'removeprefix',
+    'removesuffix', 'find', 'rfind', 'index', 'rindex', 'count', 'lower',
+    'upper', 'title', 'capitalize', 'swapcase', 'expandtabs', 'zfill',
+    'center', 'ljust', 'rjust', 'startswith', 'endswith',
 }
 
 KIND_CONST = {'method': 'FRAME_METHOD', 'header': 'FRAME_HEADER',
@@ -145,6 +155,20 @@ def run(chk, ctx):
                    '%d uses of the buffer, all bounded by the consumed '
                    'count' % nuses if not bad else '; '.join(bad[:3]),
                    site=site)
+            # the frame handed on is the bytes that were sent: no view of
+            # the buffer goes through a content-dependent bytes method
+            edits = []
+            for t in T.subterms(tuple(r.reachable_terms(f.it))):
+                if t.op == 'method' and isinstance(t.args[1], str) and \
+                        t.args[1] in CONTENT_METHODS and \
+                        T.mentions(t.args[0], lambda x: x is data):
+                    edits.append('%s(...) on %s' % (
+                        t.args[1], T.show(t.args[0])[:60]))
+            chk.ob('C06.P', cons, not edits,
+                   'views of the buffer are used as they are' if not edits
+                   else 'the result depends on the payload through %s: '
+                   'frames whose bytes match are not returned as sent' %
+                   '; '.join(sorted(set(edits))[:2]), site=site)
         first = False
     missing = {'protocol', 'heartbeat', 'method', 'header', 'body'} - \
         seen_kinds
